@@ -45,6 +45,13 @@ def forge_presets() -> list[dict]:
         {"forge": {"name": "fzd_a1", "kind": "audio", "timescale": 1000, "first_decode_time": 500,
                    "durations": [2000, 2000, 2000, 1500]}},
     ]})
+    # 4: a fractional total duration (9.537 s) and segments whose mfhd sequence numbers do not start at 1 (video 5.., audio 3..)
+    presets.append({"dir": "fze", "title": "forged E", "timing_ref": "fze_v1", "files": [
+        {"forge": {"name": "fze_v1", "kind": "video", "timescale": 1000, "start_number": 5,
+                   "durations": [2000, 2000, 2000, 2000, 1537]}},
+        {"forge": {"name": "fze_a1", "kind": "audio", "timescale": 48000, "start_number": 3,
+                   "durations": [96000, 96000, 96000, 96000, 73776]}},
+    ]})
     return presets
 
 
@@ -61,6 +68,10 @@ def world_template(spec_world: dict) -> tuple[dict, dict]:
             st = worlds.std_stream(s)
             streams.append(st)
             timing_refs[s] = st["timing_ref"]
+    if spec_world.get("defaults"):
+        # stored per-stream option defaults (set through the stream-defaults form of the management UI)
+        streams = [dict(st, defaults=spec_world["defaults"][st["dir"]]) if st["dir"] in spec_world["defaults"] else st
+                   for st in streams]
     return {"streams": streams}, timing_refs
 
 
@@ -135,7 +146,7 @@ def generate_live(prop: str, seed: int, tier: str, index: int, *, templates=None
         t0 += rng.randrange(0, 86_400_000_000)
     use_forge = rng.random() < forge_p
     if use_forge:
-        streams = [rng.choice(["fza", "fzb", "fzc", "fzd"])]
+        streams = [rng.choice(["fza", "fzb", "fzc", "fzd", "fze"])]
         if rng.random() < 0.3:
             streams.append("bbb")
     else:
